@@ -553,6 +553,22 @@ func runC17(c *fw.Ctx) {
 				c.Count("scripts_with_two_edits", 1)
 			}
 		}
+		if i%16 == 9 {
+			// every source of the edited script is wrapped in many levels of single-entry lists:
+			// a fault in a source sits 8 .. 100 levels deep
+			depth := []int{8, 16, 31, 32, 33, 34, 40, 64, 65, 100}[(i/16)%10]
+			for _, st := range cs.Script.Stmts {
+				sd, ok := st.(*gen.Send)
+				if !ok {
+					continue
+				}
+				for k := 0; k < depth; k++ {
+					sd.Src = &gen.SrcInorder{Srcs: []gen.Source{sd.Src}}
+				}
+			}
+			where += ">nested-" + itoa(depth)
+			c.Count("edits_under_deep_nesting", 1)
+		}
 		if i%16 == 5 {
 			// many statements that each draw a warning (and run fine) come before the edited script
 			w := []int{249, 250, 251, 300, 999, 1001}[(i/16)%6]
